@@ -1,4 +1,5 @@
 pub mod arena;
+pub mod bigspace;
 pub mod fork;
 pub mod gen;
 pub mod interpose;
